@@ -78,6 +78,8 @@ def render_models(sig, names, app):
                 kw = 'fields=%r' % [names.field(x) for x in ix['fields']]
                 if ix.get('name', NONE) != NONE:
                     kw += ', name=%r' % ix['name']
+                if ix.get('cond', NONE) not in (NONE, None):
+                    kw += ', condition=models.Q(%s__gt=0)' % names.field(ix['cond'])
                 parts.append('models.Index(%s)' % kw)
             meta.append('        indexes = [%s]' % ', '.join(parts))
         if not body:
